@@ -30,7 +30,7 @@ def required_buckets(tier):
         req.append(f'C12/{n}/{d}/')
     for q in ('L', 'g', 'mol'):
         req += [f'C12/mol/L/q={q}/pure/accepted', f'C12/mol/L/q={q}/container/accepted']
-    req += ['C12/infeasible/above_stock', 'C12/infeasible/beyond_stock', 'C12/enz_bystander']
+    req += ['C12/infeasible/above_stock', 'C12/infeasible/beyond_stock', 'C12/enz_bystander', 'C12/zero_entry_first', 'C12/infeasible/empty_solvent_container']
     return req
 
 
@@ -88,6 +88,13 @@ def constructive(rng, case, idx):
             init.append((rng.choice(enz), spell(rng, 10 ** rng.uniform(-2, 3), 'U')))
             has_enz = True
         rng.shuffle(init)
+        if rng.random() < 0.15:
+            # an entry that holds nothing (a tube emptied of something and refilled; an additive at '0 mg'), first in order
+            zs = [s_ for s_ in w.subs if s_ not in [e_[0] for e_ in init]]
+            if zs:
+                z = rng.choice(zs)
+                init.insert(0, (z, '0 U' if z.is_enzyme() else rng.choice(['0 mg', '0 mmol'])))
+                M.bucket('C12/zero_entry_first')
         with M.active(case):
             try:
                 stock = C('stock', initial_contents=init)
@@ -109,6 +116,12 @@ def constructive(rng, case, idx):
                 o = [s for s in w.subs if not s.is_enzyme() and s not in (solute, solvent)]
                 if o:
                     sinit.append((rng.choice(o), spell(rng, 10 ** rng.uniform(-6, -3), 'mol')))
+            if rng.random() < 0.15:
+                zs = [s_ for s_ in w.subs if s_ not in [e_[0] for e_ in sinit] and s_ != solute]
+                if zs:
+                    z = rng.choice(zs)
+                    sinit.insert(0, (z, '0 U' if z.is_enzyme() else '0 mg'))
+                    M.bucket('C12/zero_entry_first')
             with M.active(case):
                 try:
                     solv_obj = C('solv', initial_contents=sinit)
@@ -163,6 +176,14 @@ def constructive(rng, case, idx):
             w.do('Container.create_solution_from', dict(step, conc=cbad, infeasible='above_stock'),
                  lambda: C.create_solution_from(stock, solute, cbad, solv_obj, qty),
                  expect={'op': 'Container.create_solution_from', 'must': 'refuse', 'tag': 'above_stock'})
+        if rng.random() < 0.1:
+            # a solvent container that holds nothing to dilute with (empty, or only an enzyme): nothing can be made
+            M.bucket('C12/infeasible/empty_solvent_container')
+            with M.active(case):
+                hollow = C('hollow') if (not enz or rng.random() < 0.5) else C('hollow', initial_contents=[(enz[0], '5 U')])
+            w.do('Container.create_solution_from', dict(step, solvent='hollow', infeasible='empty_solvent_container'),
+                 lambda: C.create_solution_from(stock, solute, conc, hollow, qty),
+                 expect={'op': 'Container.create_solution_from', 'must': 'refuse', 'tag': 'empty_solvent_container'})
         M.bucket('C12/infeasible/beyond_stock')
         qbad = spell(rng, total * (1.0 / x) * rng.choice([1.01, 1.5, 20]), qb, exact=True)
         if not (skind != 'pure' and solute in solv_obj.contents):
